@@ -1,6 +1,7 @@
 import Psa.AdmitProps
 import Psa.Namespace
 import Psa.C02Bridge
+import Psa.Examples
 /-! # C01 — the pod admission verdict equals the namespace's enforce-policy verdict -/
 namespace PSA.Props
 open PSA
@@ -105,6 +106,15 @@ theorem C01_standard_restricted (cfg : Config) (w : World Ev) (r : Request) (lab
     | mk l v => rw [hpe] at hl; simp only at hl; rw [hl]
   rw [this]
   exact C02_restricted_iff _ p.pod hv hp
+
+/-- non-vacuity: a privileged pod created in a namespace labelled enforce=restricted:v1.25 (all-privileged defaults, shipped
+    evaluator) meets `Evaluated`; it is denied with 403 and carries the enforce-policy annotation restricted:v1.25 -/
+example : Evaluated Ex.cfg (Ex.world Ex.restrictedLabels) (Ex.podCreate Ex.privPod) Ex.restrictedLabels Ex.privPod :=
+  ⟨by decide, by decide, by decide, rfl, rfl, Or.inl rfl, by decide⟩
+example : (validatePod parseVersion Ex.cfg (Ex.world Ex.restrictedLabels) (Ex.podCreate Ex.privPod)).1.allowed = false ∧
+    (validatePod parseVersion Ex.cfg (Ex.world Ex.restrictedLabels) (Ex.podCreate Ex.privPod)).1.code = 403 ∧
+    (validatePod parseVersion Ex.cfg (Ex.world Ex.restrictedLabels) (Ex.podCreate Ex.privPod)).1.annEnforce = some ⟨.restricted, .mm 1 25⟩ := by
+  decide +kernel
 
 #print axioms C01_verdict
 #print axioms C01_status
